@@ -136,6 +136,232 @@ theorem candidates_spec (now : Nat) (U : List (Nat × Nat)) :
             exact hnin (hy ▸ hxy ▸ hx))
         exact ⟨a, b, by simp only [List.length_append, List.length_cons, List.length_nil] at c ⊢; omega⟩
 
+/-! ### MRU order: the insertion sort sorts, stably -/
+
+theorem insertByAge_sorted (x : Nat × Nat) (l : List (Nat × Nat))
+    (h : l.Pairwise (fun a c => a.2 ≤ c.2)) : (insertByAge x l).Pairwise (fun a c => a.2 ≤ c.2) := by
+  induction l with
+  | nil => simp [insertByAge]
+  | cons y ys ih =>
+    unfold insertByAge
+    have hy := List.pairwise_cons.mp h
+    split
+    · rename_i hlt
+      refine List.pairwise_cons.mpr ⟨?_, h⟩
+      intro z hz
+      rcases List.mem_cons.mp hz with rfl | hz'
+      · omega
+      · have := hy.1 z hz'; omega
+    · rename_i hge
+      refine List.pairwise_cons.mpr ⟨?_, ih hy.2⟩
+      intro z hz
+      rcases List.mem_cons.mp ((insertByAge_perm x ys).mem_iff.mp hz) with rfl | hz'
+      · omega
+      · exact hy.1 z hz'
+
+theorem foldl_insert_sorted (l acc : List (Nat × Nat)) (h : acc.Pairwise (fun a c => a.2 ≤ c.2)) :
+    (l.foldl (fun acc x => insertByAge x acc) acc).Pairwise (fun a c => a.2 ≤ c.2) := by
+  induction l generalizing acc with
+  | nil => exact h
+  | cons x xs ih => exact ih _ (insertByAge_sorted x acc h)
+
+/-- most recently seen first -/
+theorem sortByAge_sorted (l : List (Nat × Nat)) : (sortByAge l).Pairwise (fun a c => a.2 ≤ c.2) :=
+  foldl_insert_sorted l [] List.Pairwise.nil
+
+theorem insertByAge_filter (x : Nat × Nat) (l : List (Nat × Nat)) (k : Nat)
+    (h : l.Pairwise (fun a c => a.2 ≤ c.2)) :
+    (insertByAge x l).filter (fun c => c.2 == k)
+      = l.filter (fun c => c.2 == k) ++ (if x.2 = k then [x] else []) := by
+  induction l with
+  | nil => by_cases hk : x.2 = k <;> simp [insertByAge, hk]
+  | cons y ys ih =>
+    have hy := List.pairwise_cons.mp h
+    unfold insertByAge
+    split
+    · rename_i hlt
+      by_cases hk : x.2 = k
+      · -- nothing in y :: ys has age k: they are all strictly older than x
+        have hnone : (y :: ys).filter (fun c => c.2 == k) = [] := by
+          apply List.filter_eq_nil_iff.mpr
+          intro z hz
+          have hz2 : y.2 ≤ z.2 := by
+            rcases List.mem_cons.mp hz with rfl | hz'
+            · exact Nat.le_refl _
+            · exact hy.1 z hz'
+          simp only [beq_iff_eq]; omega
+        rw [List.filter_cons, hnone]
+        simp [hk]
+      · rw [List.filter_cons]
+        simp [hk]
+    · rw [List.filter_cons, ih hy.2, List.filter_cons]
+      by_cases hyk : y.2 = k <;> simp [hyk]
+
+theorem foldl_insert_filter (l acc : List (Nat × Nat)) (k : Nat)
+    (h : acc.Pairwise (fun a c => a.2 ≤ c.2)) :
+    (l.foldl (fun acc x => insertByAge x acc) acc).filter (fun c => c.2 == k)
+      = acc.filter (fun c => c.2 == k) ++ l.filter (fun c => c.2 == k) := by
+  induction l generalizing acc with
+  | nil => simp
+  | cons x xs ih =>
+    simp only [List.foldl_cons]
+    rw [ih _ (insertByAge_sorted x acc h), insertByAge_filter x acc k h, List.filter_cons]
+    by_cases hk : x.2 = k <;> simp [hk]
+
+/-- stable: candidates of equal age keep their relative order -/
+theorem sortByAge_stable (l : List (Nat × Nat)) (k : Nat) :
+    (sortByAge l).filter (fun c => c.2 == k) = l.filter (fun c => c.2 == k) := by
+  have := foldl_insert_filter l [] k List.Pairwise.nil
+  simpa [sortByAge] using this
+
+/-! ### the candidate scan is complete and keeps the freshest slot of every user -/
+
+/-- processed so far: every candidate's age is the age of a live slot of that user, and no live slot
+    of that user seen so far is fresher -/
+def CandOK (now : Nat) (done : List (Nat × Nat)) (acc : List (Nat × Nat)) : Prop :=
+  (acc.map (·.1)).Nodup ∧
+  (∀ c ∈ acc, c.1 ≠ 0 ∧ ∃ seen, (c.1, seen) ∈ done ∧ expired now seen = false ∧ c.2 = age now seen) ∧
+  (∀ c ∈ acc, ∀ seen, (c.1, seen) ∈ done → expired now seen = false → c.2 ≤ age now seen) ∧
+  (∀ id seen, (id, seen) ∈ done → id ≠ 0 → expired now seen = false → id ∈ acc.map (·.1))
+
+theorem candOK_step_skip (now : Nat) (done acc : List (Nat × Nat)) (id seen : Nat)
+    (hskip : id = 0 ∨ expired now seen = true) (h : CandOK now done acc) :
+    CandOK now (done ++ [(id, seen)]) acc := by
+  obtain ⟨h1, h2, h3, h4⟩ := h
+  refine ⟨h1, ?_, ?_, ?_⟩
+  · intro c hc
+    obtain ⟨hne, s, hs, he, ha⟩ := h2 c hc
+    exact ⟨hne, s, List.mem_append.mpr (Or.inl hs), he, ha⟩
+  · intro c hc s hs he
+    rcases List.mem_append.mp hs with hs | hs
+    · exact h3 c hc s hs he
+    · simp only [List.mem_singleton, Prod.mk.injEq] at hs
+      obtain ⟨e1, e2⟩ := hs
+      rcases hskip with h0 | hexp
+      · exact absurd (e1.trans h0) (h2 c hc).1
+      · rw [e2, hexp] at he; cases he
+  · intro i s hs hne he
+    rcases List.mem_append.mp hs with hs | hs
+    · exact h4 i s hs hne he
+    · simp only [List.mem_singleton, Prod.mk.injEq] at hs
+      obtain ⟨e1, e2⟩ := hs
+      rcases hskip with h0 | hexp
+      · exact absurd (e1.trans h0) hne
+      · rw [e2, hexp] at he; cases he
+
+theorem candOK_step_new (now : Nat) (done acc : List (Nat × Nat)) (id seen : Nat)
+    (hne : id ≠ 0) (hlive : expired now seen = false) (hnew : id ∉ acc.map (·.1))
+    (h : CandOK now done acc) :
+    CandOK now (done ++ [(id, seen)]) (acc ++ [(id, age now seen)]) := by
+  obtain ⟨h1, h2, h3, h4⟩ := h
+  refine ⟨?_, ?_, ?_, ?_⟩
+  · simp only [List.map_append, List.map_cons, List.map_nil]
+    rw [List.nodup_append]
+    refine ⟨h1, by simp, ?_⟩
+    intro x hx y hy hxy
+    simp only [List.mem_singleton] at hy
+    exact hnew (hy ▸ hxy ▸ hx)
+  · intro c hc
+    rcases List.mem_append.mp hc with hc | hc
+    · obtain ⟨hn, s, hs, he, ha⟩ := h2 c hc
+      exact ⟨hn, s, List.mem_append.mpr (Or.inl hs), he, ha⟩
+    · simp only [List.mem_singleton] at hc
+      subst hc
+      exact ⟨hne, seen, List.mem_append.mpr (Or.inr (List.mem_singleton.mpr rfl)), hlive, rfl⟩
+  · intro c hc s hs he
+    rcases List.mem_append.mp hc with hc | hc
+    · rcases List.mem_append.mp hs with hs | hs
+      · exact h3 c hc s hs he
+      · simp only [List.mem_singleton, Prod.mk.injEq] at hs
+        exact absurd (List.mem_map.mpr ⟨c, hc, hs.1⟩) hnew
+    · simp only [List.mem_singleton] at hc
+      subst hc
+      rcases List.mem_append.mp hs with hs | hs
+      · exact absurd (h4 id s hs hne he) hnew
+      · simp only [List.mem_singleton, Prod.mk.injEq] at hs
+        rw [hs.2]; exact Nat.le_refl _
+  · intro i s hs hn he
+    simp only [List.map_append, List.map_cons, List.map_nil, List.mem_append, List.mem_singleton]
+    rcases List.mem_append.mp hs with hs | hs
+    · exact Or.inl (h4 i s hs hn he)
+    · simp only [List.mem_singleton, Prod.mk.injEq] at hs
+      exact Or.inr hs.1
+
+theorem candOK_step_dup (now : Nat) (done acc : List (Nat × Nat)) (id seen : Nat)
+    (hne : id ≠ 0) (hlive : expired now seen = false) (hold : id ∈ acc.map (·.1))
+    (h : CandOK now done acc) :
+    CandOK now (done ++ [(id, seen)])
+      (acc.map fun c => if c.1 = id ∧ age now seen < c.2 then (id, age now seen) else c) := by
+  obtain ⟨h1, h2, h3, h4⟩ := h
+  have hm := map_fst_update acc id (age now seen)
+  refine ⟨by rw [hm]; exact h1, ?_, ?_, ?_⟩
+  · intro c hc
+    obtain ⟨c0, hc0, hce⟩ := List.mem_map.mp hc
+    split at hce
+    · subst hce
+      exact ⟨hne, seen, List.mem_append.mpr (Or.inr (List.mem_singleton.mpr rfl)), hlive, rfl⟩
+    · subst hce
+      obtain ⟨hn, s, hs, he, ha⟩ := h2 c0 hc0
+      exact ⟨hn, s, List.mem_append.mpr (Or.inl hs), he, ha⟩
+  · intro c hc s hs he
+    obtain ⟨c0, hc0, hce⟩ := List.mem_map.mp hc
+    split at hce
+    · rename_i hcond
+      subst hce
+      simp only at hs ⊢
+      rcases List.mem_append.mp hs with hs | hs
+      · have := h3 c0 hc0 s (hcond.1 ▸ hs) he
+        omega
+      · simp only [List.mem_singleton, Prod.mk.injEq] at hs
+        rw [hs.2]; exact Nat.le_refl _
+    · rename_i hcond
+      subst hce
+      rcases List.mem_append.mp hs with hs | hs
+      · exact h3 c0 hc0 s hs he
+      · simp only [List.mem_singleton, Prod.mk.injEq] at hs
+        obtain ⟨e1, e2⟩ := hs
+        rw [e2]
+        have : ¬ (age now seen < c0.2) := fun hlt => hcond ⟨e1, hlt⟩
+        omega
+  · intro i s hs hn he
+    rw [hm]
+    rcases List.mem_append.mp hs with hs | hs
+    · exact h4 i s hs hn he
+    · simp only [List.mem_singleton, Prod.mk.injEq] at hs
+      rw [hs.1]; exact hold
+
+theorem candidates_ok (now : Nat) (rest done acc : List (Nat × Nat)) (h : CandOK now done acc) :
+    CandOK now (done ++ rest) (candidates now rest acc) := by
+  induction rest generalizing done acc with
+  | nil => simpa [candidates] using h
+  | cons s rest ih =>
+    obtain ⟨id, seen⟩ := s
+    have e : done ++ (id, seen) :: rest = (done ++ [(id, seen)]) ++ rest := by simp
+    rw [e]
+    unfold candidates
+    split
+    · rename_i hskip
+      exact ih _ _ (candOK_step_skip now done acc id seen hskip h)
+    · rename_i hskip
+      simp only [not_or, Bool.not_eq_true] at hskip
+      split
+      · rename_i hany
+        have hold : id ∈ acc.map (·.1) := by
+          obtain ⟨c, hc, hce⟩ := List.any_eq_true.mp hany
+          exact List.mem_map.mpr ⟨c, hc, by simpa using hce⟩
+        exact ih _ _ (candOK_step_dup now done acc id seen hskip.1 hskip.2 hold h)
+      · rename_i hany
+        have hnew : id ∉ acc.map (·.1) := by
+          intro hin
+          apply hany
+          obtain ⟨c, hc, hce⟩ := List.mem_map.mp hin
+          exact List.any_eq_true.mpr ⟨c, hc, by simp [hce]⟩
+        exact ih _ _ (candOK_step_new now done acc id seen hskip.1 hskip.2 hnew h)
+
+theorem candidates_ok_nil (now : Nat) (users : List (Nat × Nat)) : CandOK now users (candidates now users []) := by
+  have := candidates_ok now users [] [] ⟨List.nodup_nil, by simp, by simp, by simp⟩
+  simpa using this
+
 /-! ### the invariant that ties slots to the recorded history -/
 
 /-- every non-empty slot of every entry was recorded for exactly that entry's key -/
